@@ -138,6 +138,18 @@ Theorem c10_end_once_prefix_refuted :
 Proof. exact old_protocol_double_delivery. Qed.
 Print Assumptions c10_end_once_prefix_refuted.
 
+(** The status register, for every sequence of SetStatus calls on a recording span: Ok is final, Error
+    overrides Unset and earlier Errors, Unset changes nothing. *)
+Theorem c10_status_priority : forall ws, status_spec ws (status_run SUnset ws) = true.
+Proof. exact status_spec_holds. Qed.
+Print Assumptions c10_status_priority.
+
+Example ex_status :
+  status_run SUnset [SUnset; SError 1; SUnset; SError 3; SOk; SError 5; SUnset] =
+    [SUnset; SError 1; SError 1; SError 3; SOk; SOk; SOk] /\
+  status_spec [SError 1; SOk; SError 2] [SError 1; SOk; SError 2] = false.
+Proof. split; reflexivity. Qed.
+
 (** Non-vacuity: a concrete racing schedule (two End callers, a 2-attribute SetAttributes,
     a child Start, IsRecording, two processors) runs to completion, delivers, and its history
     is accepted; and a bad history is rejected by the judge. *)
